@@ -10,7 +10,7 @@ Inserts(rows) == {[at |-> 0, k |-> "blank"]} \cup {[at |-> a, k |-> k] : a \in 2
 CsvFilesOf(rows) == {[rows |-> rows, special |-> sp, delim |-> d, crlf |-> cr, final |-> fin, ins |-> ins] :
                       sp \in {s \in Specials(rows) : s.r = 0 \/ (s.c <= rows[s.r] /\ ~(s.k = "e" /\ rows[s.r] = 1))},
                       d \in {COMMA, TAB}, cr \in BOOLEAN, fin \in BOOLEAN, ins \in Inserts(rows)}
-NdKinds == {"obj", "arr", "num", "str", "blank", "spaces", "viable", "closer", "bad", "objsp"}
+NdKinds == {"obj", "arr", "arr2", "num", "str", "blank", "spaces", "viable", "closer", "bad", "objsp"}
 NdLineSeqs == {s \in UNION {[1..k -> NdKinds] : k \in 2..MaxRows} : s[1] \notin {"blank"}}
 \* an unterminated empty last line is not a line: such files are the same bytes as a shorter file
 NdFilesOf(ls) == {[lines |-> ls, crlf |-> cr, final |-> fin] : cr \in BOOLEAN, fin \in {x \in BOOLEAN : x \/ ls[Len(ls)] # "blank"}}
